@@ -26,6 +26,12 @@ Inductive st :=
 | SLst (es : list st)               (* [e1, ..., en] *)
 | SMap (kvs : list (st * st))        (* {k1: v1, ..., kn: vn} *)
 | SMsg (lead : bool) (names : list str) (fields : list (str * st))   (* [.]a.b.T{f1: v1, ..., fn: vn} *)
+| SLstT (es : list st)               (* [e1, ..., en,] : with the optional trailing comma; [,] when empty *)
+| SMapT (kvs : list (st * st))       (* {k1: v1, ..., kn: vn,} ; {,} when empty *)
+| SMsgT (lead : bool) (names : list str) (fields : list (str * st))  (* [.]a.b.T{f1: v1, ..., fn: vn,} ; T{,} *)
+| SDotId (x : str)                   (* .x : the leading dot is dropped *)
+| SDotCall (f : str) (args : list st) (* .f(args) : the call's name keeps the dot *)
+| SSelEsc (a : st) (f : str)         (* a.`f` : f is the token text, back quotes included *)
 | SNot (n : nat) (a : st)            (* n + 1 '!' *)
 | SNeg (n : nat) (a : st)            (* n + 1 '-' *)
 | SMul (op : tk) (a b : st)
@@ -38,7 +44,8 @@ Inductive st :=
 
 Definition prec (t : st) : nat :=
   match t with
-  | SId _ | SLit _ | SSel _ _ | SIdx _ _ | SMCall _ _ _ | SCall _ _ | SLst _ | SMap _ | SMsg _ _ _ => 7
+  | SId _ | SLit _ | SSel _ _ | SIdx _ _ | SMCall _ _ _ | SCall _ _ | SLst _ | SMap _ | SMsg _ _ _
+  | SLstT _ | SMapT _ | SMsgT _ _ _ | SDotId _ | SDotCall _ _ | SSelEsc _ _ => 7
   | SNot _ _ | SNeg _ _ | SNegLit _ | SNegDbl _ => 6 | SMul _ _ _ => 5 | SAdd _ _ _ => 4 | SRel _ _ _ => 3
   | SAnd _ _ => 2 | SOr _ _ => 1 | SCond _ _ _ => 0 | SParen _ => 7
   end.
@@ -99,6 +106,23 @@ Fixpoint raw (t : st) : list tk :=
          | [] => []
          | (n, v) :: l' => TIdent n :: TColon :: raw v ++ match l' with [] => [] | _ => TComma :: go l' end
          end) fields ++ [TRBrace]
+  | SLstT es => [TLBracket] ++ commas es ++ [TComma; TRBracket]
+  | SMapT kvs => [TLBrace] ++ (fix go (l : list (st * st)) : list tk :=
+                                 match l with
+                                 | [] => []
+                                 | (k, v) :: l' => raw k ++ [TColon] ++ raw v ++
+                                                   match l' with [] => [] | _ => TComma :: go l' end
+                                 end) kvs ++ [TComma; TRBrace]
+  | SMsgT lead names fields =>
+      (if lead then [TDot] else []) ++ ids_tk names ++ [TLBrace] ++
+      (fix go (l : list (str * st)) : list tk :=
+         match l with
+         | [] => []
+         | (n, v) :: l' => TIdent n :: TColon :: raw v ++ match l' with [] => [] | _ => TComma :: go l' end
+         end) fields ++ [TComma; TRBrace]
+  | SDotId x => [TDot; TIdent x]
+  | SDotCall f args => [TDot; TIdent f; TLParen] ++ commas args ++ [TRParen]
+  | SSelEsc a f => at_ 7 a ++ [TDot; TEscIdent f]
   | SNot n a => repeat TBang (S n) ++ at_ 7 a
   | SNeg n a => repeat TMinus (S n) ++ at_ 7 a
   | SMul op a b => at_ 5 a ++ [op] ++ at_ 6 b
@@ -143,6 +167,16 @@ Fixpoint ast (t : st) : expr :=
       EStruct (if lead then 46%N :: join_dots names else join_dots names)
               ((fix go (l : list (str * st)) : list (str * expr) :=
                   match l with [] => [] | (n, v) :: l' => (n, ast v) :: go l' end) fields)
+  | SLstT es => EList (many es)
+  | SMapT kvs => EMap ((fix go (l : list (st * st)) : list (expr * expr) :=
+                          match l with [] => [] | (k, v) :: l' => (ast k, ast v) :: go l' end) kvs)
+  | SMsgT lead names fields =>
+      EStruct (if lead then 46%N :: join_dots names else join_dots names)
+              ((fix go (l : list (str * st)) : list (str * expr) :=
+                  match l with [] => [] | (n, v) :: l' => (n, ast v) :: go l' end) fields)
+  | SDotId x => EIdent x
+  | SDotCall f args => call_ast (46%N :: f) None (many args)
+  | SSelEsc a f => ESelect (ast a) f false
   | SNot n a => if Nat.odd (S n) then ECall $"!_" None [ast a] else ast a
   | SNeg n a => if Nat.odd (S n) then ECall $"-_" None [ast a] else ast a
   | SMul op a b => ECall (opname (mulop_name op)) None [ast a; ast b]
@@ -185,6 +219,15 @@ Fixpoint wf_st (t : st) : Prop :=
   | SMsg _ names fields =>
       names <> [] /\
       (fix go (l : list (str * st)) : Prop := match l with [] => True | (_, v) :: l' => wf_st v /\ go l' end) fields
+  | SLstT es => all es
+  | SMapT kvs => (fix go (l : list (st * st)) : Prop :=
+                    match l with [] => True | (k, v) :: l' => wf_st k /\ wf_st v /\ go l' end) kvs
+  | SMsgT _ names fields =>
+      names <> [] /\
+      (fix go (l : list (str * st)) : Prop := match l with [] => True | (_, v) :: l' => wf_st v /\ go l' end) fields
+  | SDotId _ => True
+  | SDotCall f args => call_ok (46%N :: f) None (map ast args) = true /\ all args
+  | SSelEsc a _ => wf_st a
   | SNot _ a | SParen a => wf_st a
   | SNeg n a => wf_st a /\ (n = O -> is_number_tok (if 7 <=? prec a then raw a else TLParen :: raw a ++ [TRParen]) = false)
   | SMul op a b => mulop_name op <> None /\ wf_st a /\ wf_st b
@@ -214,6 +257,15 @@ Fixpoint wf_stb (t : st) : bool :=
   | SMsg _ names fields =>
       (match names with [] => false | _ => true end) &&
       (fix go (l : list (str * st)) : bool := match l with [] => true | (_, v) :: l' => wf_stb v && go l' end) fields
+  | SLstT es => all es
+  | SMapT kvs => (fix go (l : list (st * st)) : bool :=
+                    match l with [] => true | (k, v) :: l' => wf_stb k && wf_stb v && go l' end) kvs
+  | SMsgT _ names fields =>
+      (match names with [] => false | _ => true end) &&
+      (fix go (l : list (str * st)) : bool := match l with [] => true | (_, v) :: l' => wf_stb v && go l' end) fields
+  | SDotId _ => true
+  | SDotCall f args => call_ok (46%N :: f) None (map ast args) && all args
+  | SSelEsc a _ => wf_stb a
   | SNot _ a | SParen a => wf_stb a
   | SNeg n a => wf_stb a && (negb (Nat.eqb n 0) || negb (is_number_tok (if 7 <=? prec a then raw a else TLParen :: raw a ++ [TRParen])))
   | SMul op a b => (match mulop_name op with Some _ => true | None => false end) && wf_stb a && wf_stb b
